@@ -33,6 +33,13 @@ class SQLLiteQueryBuilder(QueryBuilder):
     def __init__(self, **kwargs) -> None:
         super().__init__(wrapper_cls=SQLLiteValueWrapper, **kwargs)
 
+    def _offset_sql(self, ctx: SqlContext) -> str:
+        offset_sql = super()._offset_sql(ctx)
+        if offset_sql and self._limit is None:
+            # SQLite has no OFFSET without LIMIT; a negative LIMIT means "no limit"
+            return " LIMIT -1" + offset_sql
+        return offset_sql
+
     def get_sql(self, ctx: SqlContext | None = None) -> str:
         ctx = ctx or SQLLiteQuery.SQL_CONTEXT
         if not (self._selects or self._insert_table or self._delete_from or self._update_table):
